@@ -4,3 +4,5 @@ pub mod report;
 pub mod e6;
 pub mod c13live;
 pub mod c14live;
+pub mod live;
+pub mod e3;
